@@ -932,10 +932,10 @@ def r5_hash(rep, src):
     # the value handed to hash(), computed by interpreting __hash__ (sa.heap, hash() itself answering with its argument) on version
     # objects that compare equal although they are spelled differently: absent / zero epoch, leading zeros in a digit run, absent /
     # zero revision, a missing trailing number (dpkg: the end of a part counts as 0).  Equal versions must hand the same value to hash().
-    rets = [r for r in ast.walk(f.node) if isinstance(r, ast.Return)]
-    if len(rets) != 1 or not (isinstance(rets[0].value, ast.Call) and norm(rets[0].value.func) == 'hash'):
-        raise AnalysisError('%s: expected `return hash(...)`' % f.site)
-    arg = rets[0].value.args[0]
+    hcalls = [c for c in ast.walk(f.node) if isinstance(c, ast.Call) and norm(c.func) == 'hash' and c.args]
+    if not hcalls:
+        raise AnalysisError('%s: no call of hash() found' % f.site)
+    arg = hcalls[0].args[0]
     from .. import heap as H
 
     def key_of(ep, up, rev):
@@ -955,7 +955,7 @@ def r5_hash(rep, src):
                 return tuple(plain(x) for x in v)
             return v
         if len(got) != 1:
-            raise AnalysisError('%s: hash() is called %d times' % (f.site, len(got)))
+            raise AnalysisError('%s: hash() is called %d times on a fresh object' % (f.site, len(got)))
         return plain(got[0])
     classes = [
         ('absent and zero epoch, absent and zero revision, leading zeros', [(None, '1.0', None), ('0', '1.0', None), ('00', '1.0', None), (None, '1.0', '0'), (None, '1.00', None), (None, '01.0', None)]),
